@@ -33,6 +33,7 @@ func ParseQuery(q string) (pq *proto.Query, err error) {
 	p := newParser(q)
 
 	defer p.recover(&err)
+	defer p.lexer.drain()
 
 	pq, err = p.parse()
 	return pq, err
@@ -356,6 +357,14 @@ func lex(input string) *lexer {
 func (l *lexer) run() {
 	for l.state = lexText; l.state != nil; {
 		l.state = l.state(l)
+	}
+	close(l.items)
+}
+
+// drain consumes all remaining items so that the lexer goroutine terminates
+// even when the parser stopped reading before the end of the input.
+func (l *lexer) drain() {
+	for range l.items {
 	}
 }
 
